@@ -147,7 +147,9 @@ def run(chk):
     # another unicode escape ("\\udb46\\\\\\u0041"), is rejected with "illegal escape character" (its surrogate-pair look-ahead loses the
     # backslash parity); "\\udb46x\\\\\\u0041", a low surrogate or a complete pair in that place are accepted.  Such literals are left out of
     # the cross-validation of the lexer specification against javac.
-    quirk = re.compile(r"\\u[dD][89abAB][0-9a-fA-F]{2}(?:\\\\)+\\u")
+    # (seen later: the same happens when the even run of backslashes is followed by a plain `u` -- "\\ud9b4\\\\u..." -- so the pattern is: high
+    #  surrogate escape, one or more escaped backslashes, optional backslash, `u`)
+    quirk = re.compile(r"\\u[dD][89abAB][0-9a-fA-F]{2}(?:\\\\)+\\?u")
     pool = [r_ for r_ in recs if all(32 <= c < 127 for c in r_["lit"]) and not quirk.search("".join(map(chr, r_["lit"])))]
     for r_ in rnd.sample(pool, min(n_javac, len(pool))):
         lits.append("".join(map(chr, r_["lit"])))
